@@ -2,8 +2,8 @@ SPECIFICATION MCSpec
 CONSTANT Limits = {"pi", "low", "inf"}
 CONSTANT Fits = {"dlite", "taubinSVD"}
 CONSTANT BModes = {"static", "velocity"}
-CONSTANT PressuresKeyed = FALSE
-CONSTANT ExcludedReset = FALSE
+CONSTANT PressuresKeyed = TRUE
+CONSTANT ExcludedReset = TRUE
 CONSTANT WalkLen = 12
 VIEW View
 CHECK_DEADLOCK FALSE
